@@ -233,6 +233,34 @@ def run(ctx):
         res.site("K5|calibrated-span-merge", True, {"verdict": "ok" if ok else "VIOLATION"})
         if not ok:
             res.find("K5|calibrated-span-merge", b_.loc(), "BasicBlock::as_schedule does not merge the spans of a source instruction's calibrated instructions (lookup of the greatest recorded index <= the calibrated index; union into the existing span, or insert)", "a gate calibrated to two pulses is reported with the span of only one of them")
+    # R6 documented duration of a waveform: a waveform *defined* in the program (DEFWAVEFORM) lasts samples / sample rate; the
+    #    template parameter `duration` is consulted only when the name is not defined
+    wd = [f_ for f_ in db.fns if f_.name == "waveform_duration_seconds" and "schedule" in f_.path and f_.kind in ("AssocFn", "Fn")]
+    key = "K7|defined-waveform-before-template-duration"
+    if len(wd) != 1:
+        res.missing_anchor("waveform_duration_seconds")
+    else:
+        w_ = wd[0]
+        dur_sites = []
+        for bb, t, c in w_.calls():
+            for a in t["args"]:
+                e = fn_expr_operand(w_, a)
+                if any(n[0] == "const" and n[1] == "duration" for n in _nodes(e)):
+                    dur_sites.append(bb)
+        ok = bool(dur_sites)
+        for bb in dur_sites:
+            guarded = False
+            for sb, tgt in w_.control_deps(bb):
+                tt = w_.blocks[sb]["t"]
+                if tt["k"] == "switch":
+                    de = fn_expr_operand(w_, tt["d"])
+                    if de[0] == "discr" and de[1][0] == "call" and de[1][1].endswith("::get") and any(n[0] == "field" and n[2] == "waveforms" for n in _nodes(de[1])):
+                        taken = [int(v) for v, x in tt["ts"] if x == tgt]
+                        guarded = guarded or taken == [0] or (not taken and [int(v) for v, x in tt["ts"]] == [1])
+            ok = ok and guarded
+        res.site(key, True, {"template_duration_sites": len(dur_sites), "verdict": "ok" if ok else "VIOLATION"})
+        if not ok:
+            res.find(key, w_.loc(), "waveform_duration_seconds reads the template parameter `duration` without first finding that the waveform is not defined in the program: a defined waveform with a parameter of that name gets the wrong duration", "`DEFWAVEFORM custom(%duration): ...` used as `PULSE 0 \"a\" custom(duration: 3.0)`")
     res.explanation = "Sibling-table agreement between the default handler's role/is_scheduled tables and the duration table, equality of the edge kind tested by the two filters of as_schedule, and the one-item-per-node / end = start + duration skeleton."
     res.assumptions = ["petgraph Topo over EdgeFiltered visits every node once in a topological order of the filtered edges"]
     return res
